@@ -23,6 +23,7 @@ class C11(TieCheck):
     pid = "C11"
     area = "Dispatch"
     props = "Props_C11.v"
+    extra_props = [("Compose", "Props_Compose.v")]
     harness = "c11"
     extra_trust = [
         "model: coq/Dispatch/Dispatch.v transliterates Router.ServeHTTP (fox.go:531-653) with tree.lookup as a parameter; "
